@@ -36,7 +36,7 @@ func main() {
 	}
 	one := []int64{1, 1, 1, 1}
 	scen := []netsim.Scenario{
-		{Cfg: mk("4x1-byz-proposer-AB", one, netsim.Config{ByzProposer: true}), Bound: b},
+		{Cfg: mk("4x1-byz-proposer-AB", one, netsim.Config{ByzProposer: true}), Bound: b - 1},
 		{Cfg: mk("4x1-lock-split", one, netsim.Config{Byz: []int{3}, Driver: "lock-split"}), Bound: b - 1},
 		{Cfg: mk("4x1-late-polka", one, netsim.Config{Byz: []int{3}, Driver: "late-polka"}), Bound: b - 1},
 		{Cfg: mk("3331-byz-small", []int64{3, 3, 3, 1}, netsim.Config{Byz: []int{3}}), Bound: b},
